@@ -3,6 +3,8 @@ CONSTANTS
   Classes <- Classes4
   Outs <- OutsC07x
   Durs = {0}
+  CDurs <- ZeroDur
+  EDurs <- ZeroDur
   Rets <- RetsOne
   Advs <- AdvsExact
   Decs <- DecsAll
